@@ -19,6 +19,18 @@ CHECKS["C12"] = dict(level="model_checking", design="5/C12", technique="TLA+ sym
    text="Every window of length <= 3 over 33 instruction units (quick; sampled to length 5 in thorough) and every fixture function is run through the real optimiser; TLC checks that input and real output have equal outcome sets (effects, stack, variables, exit) from the entry and from every label, and that lines follow their instructions; the transcription's every single rewrite step preserves equivalence.",
    note="Trusts the peephole hook (calls the real peephole_optimize), and the symbolic semantics in Peephole.tla. Windows are bounded in length; whole functions are bounded to 220 instructions. Runs of >= 256 Drops are outside the quantifier (the compiler cannot emit them).")
 
+_lang_note = ("Trusts Lang.tla as the statement of the source semantics (written from the language documentation and fixtures, "
+              "not from the compiler), the pretty printer (tools/lang.py) and TLC. Numbers are small integers plus nan/inf/-inf/-0; "
+              "error messages are not compared; program shapes are those of the seeded generator (tools/gen.py).")
+for _pid, _t in {
+  "C01": "Generated programs over the core expression/statement grammar (random well-scoped programs in six positions and three layouts, the exhaustive operator table over 17 special atoms, all ordered operator pairs as unparenthesised chains) are executed by TLC on the TLA+ semantics Lang.tla; the VM must print the same lines and end the same way.",
+  "C02": "Closure/scoping programs (nested functions to depth 3, captures of parameters, locals, loop items, catch variables, self and module names, closures called after the declaring call returned, interleaved writes) are executed by TLC on Lang.tla (store model: fresh location per executed declaration, one location per for item) and compared with the VM.",
+  "C03": "Class programs (hierarchies to depth 3, every overriding pattern, init field sets incl. conditional assignment, invoke / get-then-call / bound methods / super / static / field-shadows-method / undeclared members, call sites visited by sequences of receiver classes, class factories, objects in fields) are executed by TLC on Lang.tla and compared with the VM.",
+  "C04": "Exception programs (try placement in module/function/method/loop/callback with 0-3 parameters and locals, raise 0-2 calls deep, explicit/runtime/native errors, typed/untyped/multiple catch clauses, every way of leaving the try, state printed afterwards, a late raise) are executed by TLC on Lang.tla (nearest dynamically enclosing matching handler, handler deactivated on every exit) and compared with the VM.",
+}.items():
+    CHECKS[_pid] = dict(level="model_checking", design="5/" + _pid, text=_t, note=_lang_note,
+        technique="explicit TLA+ executable semantics (Lang.tla, CEK machine) run by TLC on every generated program to predict output and status; predictions replayed on the real VM (mode G)")
+
 NOT_APPLICABLE = {}
 
 def main():
